@@ -341,6 +341,23 @@ func (e *Engine) InitPackages(pkgs ...*ssa.Package) (err error) {
 	return nil
 }
 
+// panicMessage renders the value a target panic carries; error values built by errors.New / fmt.Errorf show their text.
+func panicMessage(v value) string {
+	if i, ok := v.(iface); ok {
+		if p, ok := i.v.(*value); ok && p != nil {
+			if st, ok := (*p).(structure); ok && len(st) >= 1 {
+				if s, ok := st[0].(string); ok {
+					return "error: " + s
+				}
+			}
+		}
+		if s, ok := i.v.(string); ok {
+			return s
+		}
+	}
+	return toString(v)
+}
+
 func describePanic(r interface{}) string {
 	switch r := r.(type) {
 	case pathAbort:
@@ -396,7 +413,7 @@ func (e *Engine) RunPath(spec *HarnessSpec, res *HarnessResult, prefix []bool) (
 						detail += " in " + chainOf(e.cur, 4)
 					}
 				case targetPanic:
-					outcome, detail = "panic", toString(r.v)
+					outcome, detail = "panic", panicMessage(r.v)
 				case *runtime.TypeAssertionError:
 					buf := make([]byte, 1<<13)
 					buf = buf[:runtime.Stack(buf, false)]
